@@ -79,6 +79,20 @@ class C13(P.Property):
                     for k in range(n):
                         for when in ("before", "after"):
                             plans.append(self.base_plan(scheme, buf, [{"role": role, "when": when, "k": k}]))
+        # the reference workflow once more with create-service done through the command layer (service name, alias file)
+        key = ("CJJ14.PiBas", 8192, "named")
+        if key not in self._baseline:
+            p0 = self.base_plan("CJJ14.PiBas", 8192, [])
+            p0["knobs"]["named_create"] = True
+            res = self.execute(p0)
+            self._baseline[key] = {} if res.violations else dict(res.extra["role_k"])
+            if res.violations:
+                plans.append(p0)
+        for k in range(self._baseline[key].get("client", 0)):
+            for when in ("before", "after"):
+                p1 = self.base_plan("CJJ14.PiBas", 8192, [{"role": "client", "when": when, "k": k}])
+                p1["knobs"]["named_create"] = True
+                plans.append(p1)
         if tier == "thorough":
             # the single-crash enumeration for the other six schemes as well (default buffer size)
             for scheme in [x for x in fe.SCHEMES if x not in ENUM_SCHEMES]:
@@ -152,8 +166,11 @@ class C13(P.Property):
         for _ in range(rng.choice([1, 1, 2, 2, 3])):
             role = rng.choice(["server", "client"])
             crashes.append({"role": role, "when": rng.choice(["before", "after"]), "k": rng.randrange(hi[role])})
-        return self.base_plan(scheme, buf, crashes, seed=seed, net=rng.choice([dict(lo=0.001, hi=0.05), dict(lo=0.001, hi=0.05, seg=3), dict(lo=0.01, hi=0.3, seg=2)]),
+        named = rng.random() < 0.3
+        pl = self.base_plan(scheme, buf, crashes, seed=seed, net=rng.choice([dict(lo=0.001, hi=0.05), dict(lo=0.001, hi=0.05, seg=3), dict(lo=0.01, hi=0.3, seg=2)]),
                               skew=rng.choice([1.0, 1.0, 0.5, 2.0]), db=db)
+        pl["knobs"]["named_create"] = named
+        return pl
 
     # ------------------------------------------------------------------ execution
     def execute(self, plan):
@@ -306,7 +323,9 @@ class C13(P.Property):
                     viol.append(V("C13.d", "STATE_MISMATCH", f"client flags are inconsistent with the files present: {problems}"))
                     return
             # --- next step of the workflow
-            if sid is None:
+            if sid is None and knobs.get("named_create"):
+                opname, coro = "create", host.call(self._create_by_name, cfg0, "c13 service")
+            elif sid is None:
                 opname, coro = "create", host.create(copy.deepcopy(cfg0))
             elif not flags["kc"]:
                 opname, coro = "gen_key", host.gen_key(sid)
@@ -361,6 +380,32 @@ class C13(P.Property):
         if not done and not viol:
             viol.append(V("C13.b", "HANG", f"the resume driver did not complete the workflow within {MAX_OPS} operations: {out['ops']}"))
         await asyncio.sleep(3)
+
+    def _create_by_name(self, cfg0, sname):
+        """create-service the documented way (frontend/client/commands.py, with a service name), in the client process; when the name
+        already leads to a service (an earlier attempt got that far before it died) that service is the one"""
+        import contextlib
+        import importlib
+        import io
+        import frontend.client.services.service_name_handler as snh
+        import frontend.client.commands as cmds
+        snh = importlib.reload(snh)
+        cmds = importlib.reload(cmds)
+        try:
+            return snh.get_service_id_by_sname(sname)
+        except KeyError:
+            pass
+        indir = os.path.join(world.scratch_root(), "client-input")
+        os.makedirs(indir, exist_ok=True)
+        cfg_path = os.path.join(indir, "c13-config.json")
+        with open(cfg_path, "w") as f:
+            json.dump(cfg0, f)
+        buf = io.StringIO()
+        with contextlib.redirect_stdout(buf):
+            cmds.create_service(cfg_path, sname)
+        if "error" in buf.getvalue().lower():
+            raise RuntimeError("create-service: " + buf.getvalue().strip()[-160:])
+        return importlib.reload(snh).get_service_id_by_sname(sname)
 
     def _scheme_refuses(self, L, cfg0, db, exc):
         try:
@@ -426,7 +471,7 @@ class C13(P.Property):
     # ------------------------------------------------------------------ minimisation
     def simplifications(self, plan):
         k = plan["knobs"]
-        for key, val in (("skew", 1.0), ("net", dict(lo=0.001, hi=0.02)), ("db", REF_DB)):
+        for key, val in (("skew", 1.0), ("net", dict(lo=0.001, hi=0.02)), ("db", REF_DB), ("named_create", False)):
             if k.get(key) != val:
                 yield dict(plan, knobs=dict(k, **{key: val}))
         if k["scheme"] != "CJJ14.PiBas":
